@@ -321,7 +321,26 @@ def b_rules(p: Project, rep: Report):
     from .dataflow import writes_in
 
     starnames = {text(k.value) for n in ctor for c in n.calls() for k in c.keywords if k.arg is None and isinstance(k.value, ast.Name)}
-    edits = [w for w in writes_in(pfn) if isinstance(w.target, (ast.Subscript, ast.Attribute, ast.Name)) and any(text(w.target).startswith(nm) for nm in starnames)]
+    def _builds_from_groupdict(stmt) -> bool:
+        # `<d>.update((k.lower(), v) for k, v in <match>.groupdict().items())` / the dict-comprehension form: the mapping is
+        # being BUILT from the captures (keys lower-cased, values as captured), not edited
+        c_ = stmt.value if isinstance(stmt, ast.Expr) else None
+        if not (isinstance(c_, ast.Call) and isinstance(c_.func, ast.Attribute) and c_.func.attr == "update" and len(c_.args) == 1):
+            return False
+        g_ = c_.args[0]
+        if isinstance(g_, (ast.GeneratorExp, ast.ListComp)) and len(g_.generators) == 1 and isinstance(g_.elt, ast.Tuple) and len(g_.elt.elts) == 2:
+            k_, v_ = g_.elt.elts
+        elif isinstance(g_, ast.DictComp) and len(g_.generators) == 1:
+            k_, v_ = g_.key, g_.value
+        else:
+            return False
+        gen = g_.generators[0]
+        if not (text(gen.iter).endswith(".groupdict().items()") and isinstance(gen.target, ast.Tuple) and len(gen.target.elts) == 2 and not gen.ifs):
+            return False
+        kn, vn = text(gen.target.elts[0]), text(gen.target.elts[1])
+        return text(k_) in (kn, f"{kn}.lower()") and text(v_) == vn
+
+    edits = [w for w in writes_in(pfn) if isinstance(w.target, (ast.Subscript, ast.Attribute, ast.Name)) and any(text(w.target).startswith(nm) for nm in starnames) and not _builds_from_groupdict(w.stmt)]
     rep.check("B-R5", "parse:captures-not-edited-in-place", not edits, f"the captured header fields are modified before validation ({[text(w.stmt)[:60] for w in edits]}): e.g. int('000') == 0 is falsy, so the constructor's `or default` replaces an invalid OFXHEADER by the valid default" if edits else "", hloc(p, edits[0].stmt if edits else pfn))
     from . import paths as PT
 
@@ -344,6 +363,8 @@ def b_rules(p: Project, rep: Report):
     ok = ok and bool(raises)
     rep.check("B-R5", "parse:no-match-raises-OFXHeaderError", ok, "a header text that does not match the regex does not raise OFXHeaderError" if not ok else "", hloc(p, pfn))
     m = [s for s in own_statements(pfn) if isinstance(s, ast.Assign) and isinstance(s.value, ast.Call) and isinstance(s.value.func, ast.Attribute) and s.value.func.attr in ("search", "match", "fullmatch")]
+    # `if (m := cls.regex.search(raw)) is None:` binds the match as well
+    m += [x for x in ast.walk(pfn) if isinstance(x, ast.NamedExpr) and isinstance(x.value, ast.Call) and isinstance(x.value.func, ast.Attribute) and x.value.func.attr in ("search", "match", "fullmatch")]
     ok = bool(m) and all(ex.t(s.value.func.value) == f"{params_of(pfn0)[0]}.regex" and ex.t(s.value.args[0]) == params_of(pfn0)[1] for s in m)
     rep.check("B-R5", "parse:matches-cls.regex", ok, "" if ok else "parse() does not match its argument against cls.regex", hloc(p, pfn))
 
